@@ -554,9 +554,11 @@ class Env:
                 shutil.copyfile(self.backup, self.fp)
             os.utime(self.fp, (t, t))
         elif what == 'rewrite':
-            # other bytes under the same name (the frames of the store in reverse order), then a distinct mtime
+            # a REPLACEMENT file: same labels, but under every label the Frame of the next label (so a Bus that serves
+            # from it hands out Frames that were never written under that label), then a distinct mtime -- newer or OLDER
             import static_frame as sf
-            bus = sf.Bus.from_frames([self.frames[l] for l in reversed(self.order)])
+            n = len(self.order)
+            bus = sf.Bus.from_frames([self.frames[self.order[(i + 1) % n]].rename(l) for i, l in enumerate(self.order)])
             if os.path.exists(self.fp):
                 os.remove(self.fp)
             if self.cfg is None:
@@ -1117,7 +1119,9 @@ STALE_ALPHABET = [
     ('items',),
     ('status',),
 ]
-FILE_EVENTS = [('file', 'touch', T0 + 5), ('file', 'rewrite', T0 + 7), ('file', 'delete')]
+# both directions: a restored backup (cp -p, shutil.copy2, os.replace of an older file, os.utime backwards) is OLDER than recorded
+FILE_EVENTS = [('file', 'touch', T0 + 5), ('file', 'touch', T0 - 5), ('file', 'rewrite', T0 + 7), ('file', 'rewrite', T0 - 7),
+               ('file', 'delete')]
 
 
 def stale_cases(ctx, work):
@@ -1138,10 +1142,11 @@ def stale_cases(ctx, work):
         ops = list(h[:i]) + [ev] + list(h[i:])
         ops, trace = run_history(env, mp, ops)
         os.path.exists(env.fp) and os.remove(env.fp)
-        ctx.count(f'stale:{ev[1]}', f'stale:point={i}', f'stale:{fmt}')
+        ctx.count(f'stale:{ev[1]}' + ('' if len(ev) < 3 else (':newer' if ev[2] > T0 else ':older')), f'stale:point={i}', f'stale:{fmt}')
         raised = any(t[0] == ('err', 'StoreFileMutation') for t in trace)
         yield history_case('api:stale', env, mp, ops, trace,
-                           tags={'stratum': 'stale', 'event': ev[1], 'format': fmt, 'mp': mp}, nontrivial=raised)
+                           tags={'stratum': 'stale', 'event': ev[1], 'older': len(ev) > 2 and ev[2] < T0, 'format': fmt, 'mp': mp},
+                           nontrivial=raised)
 
 
 # ---------------------------------------------------------------------------------- malformed keys
@@ -1324,6 +1329,46 @@ def regression_cases(ctx, work):
                            tags={'regression': 'config-max-persist-1', 'format': fmt, 'mp': 1})
 
 
+# ---------------------------------------------------------------------------------- wide slices over many labels
+def wide_slice_cases(ctx, work):
+    """5..7 labels, max_persist 2..3: load one or two single labels, then a slice selection (iloc[a:b], loc[x:y], head, tail)
+    that needs more loads than max_persist -- so Frames loaded at the start of the call are evicted and re-instated while
+    the reader is consumed in batches -- then read EVERY label: each must return its own Frame."""
+    rng = ctx.rng
+    acc = lambda l: ('sel', 'getitem', ('label', l), False)
+    combos = []
+    for n in (5, 6, 7):
+        labels = [_label(r) for r in range(n)]
+        pres = [()] + [(a,) for a in labels] + [(a, b) for a in labels for b in labels if a != b]
+        slices = [('sel', 'iloc', ('slice', (a, b, None)), False) for a in range(n) for b in range(a + 4, n + 1)]
+        slices += [('head', k, False) for k in range(4, n + 1)] + [('tail', k, False) for k in range(4, n + 1)]
+        slices += [('sel', 'loc', ('lslice', (labels[a], labels[b])), False) for a in range(n) for b in range(a + 3, n)]
+        slices += [('sel', 'iloc', ('slice', (None, None, -1)), False), ('sel', 'iloc', ('slice', (None, None, 2)), False)]
+        for mp in (2, 3):
+            for pre in pres:
+                for sl in slices:
+                    combos.append((n, mp, pre, sl))
+    take = ctx.n(240, 6000)
+    if take < len(combos):
+        combos = rng.sample(combos, take)
+    envs = {}
+    for j, (n, mp, pre, sl) in enumerate(combos):
+        fmt = FORMATS[j % len(FORMATS)]
+        if (n, fmt) not in envs:
+            kinds = uniform_kinds(rng, n, fmt, cls=(1, 1, True))
+            envs[(n, fmt)] = Env(work.tmp, work.name('ws'), fmt, [_label(r) for r in range(n)], kinds, False, rng)
+        env = envs[(n, fmt)]
+        into = rng.random() < .25                       # sometimes go on reading from the derived Bus instead
+        sl2 = sl[:-1] + (into,)
+        ops = [acc(l) for l in pre] + [sl2, ('iter_element',) if into else ('status',)] + [acc(l) for l in env.order if not into]
+        if into:
+            ops.append(('values',))
+        ops, trace = run_history(env, mp, ops, kernel=(j % 2 == 0))
+        ctx.count(f'wide-slice:n={n}', f'wide-slice:mp={mp}', f'wide-slice:{sl[0] if sl[0] != "sel" else sl[2][0]}', f'wide-slice:preloaded={len(pre)}')
+        yield history_case('api:wide-slice', env, mp, ops, trace, kernel=(j % 2 == 0),
+                           tags={'stratum': 'wide-slice', 'n': n, 'mp': mp, 'format': fmt})
+
+
 def cases(ctx):
     work = Work()
     try:
@@ -1331,6 +1376,7 @@ def cases(ctx):
         yield from store_reader_cases(ctx)
         yield from roundtrip_cases(ctx, work)
         yield from malformed_cases(ctx, work)
+        yield from wide_slice_cases(ctx, work)
         yield from stale_cases(ctx, work)
         yield from random_cases(ctx, work, kernel=False)
         yield from random_cases(ctx, work, kernel=True)
